@@ -1,7 +1,77 @@
-//! C13 end-to-end part (filled in once the BIFF8 writer exists): one workbook, every layout.
-use crate::engine::choice::Stats;
-use crate::engine::report::Report;
+//! C13 end-to-end: one xls workbook with a VBA project (Workbook stream in the mini stream or in regular
+//! sectors; dir / module / PROJECT streams) written in every physical layout must read as the same workbook.
+use crate::engine::choice::{explore_deviations, explore_full, run_one, Chooser, Stats};
+use crate::engine::report::{Replay, Report};
+use crate::engine::{guarded, hash_of, normalise_site};
+use crate::gen::ovba::*;
+use crate::gen::{biff8, cfb};
+use crate::model::sheet::range_digest;
+use calamine::{Reader, Xls};
+use serde_json::json;
+use std::io::Cursor;
 use std::sync::Mutex;
 
-pub fn check(_rep: &Report, _stats: &Mutex<Stats>) {}
-pub fn replay(_v: &serde_json::Value) -> i32 { 0 }
+fn project() -> VProject {
+    VProject { codepage: 1252, modules: vec![
+        VModule { name: "Module1".into(), stream_name: "Module1".into(), source: b"Sub A()\r\n  MsgBox \"hi\"\r\nEnd Sub\r\n".to_vec(), text_offset: 0, mode: 0, class_module: false, read_only: false, private: false },
+        VModule { name: "Big".into(), stream_name: "Big".into(), source: (0..9000u32).map(|i| b"Rem line of a long module\r\n"[(i % 27) as usize]).collect(), text_offset: 7, mode: 0, class_module: true, read_only: false, private: false },
+    ], refs: vec![VRef { name: "stdole".into(), kind: RefKind::Registered }], compat_version: false }
+}
+
+fn build(ch: &mut Chooser) -> (Vec<u8>, String) {
+    let big_workbook = ch.flag("workbook-stream-over-4096-bytes");
+    let mut cells = vec![biff8::BCell::Number { r: 0, c: 0, xf: 0, v: 1.5 }, biff8::BCell::Label { r: 1, c: 1, xf: 0, text: "layout".into(), wide: false }];
+    if big_workbook { for r in 2..400u16 { cells.push(biff8::BCell::Number { r, c: 0, xf: 0, v: r as f64 }); } }
+    let stream = biff8::workbook_stream(&biff8::BBook { sheets: vec![biff8::BSheet::new("S", cells)], ..Default::default() });
+    let mut e = vec![cfb::Entry::stream("Workbook", stream, None)];
+    e.extend(project_entries(&project(), true, 1));
+    let lay = crate::props::c13::choose_layout(ch);
+    (cfb::write(&e, &lay), format!("big_workbook={big_workbook} {lay:?}"))
+}
+
+fn observe(bytes: &[u8]) -> Result<String, String> {
+    let mut wb: Xls<_> = Xls::new(Cursor::new(bytes.to_vec())).map_err(|e| format!("open: {e:?}"))?;
+    let r = wb.worksheet_range("S").map_err(|e| format!("range: {e:?}"))?;
+    let v = match wb.vba_project() { Some(Ok(v)) => v, Some(Err(e)) => return Err(format!("vba: {e:?}")), None => return Err("no vba project".into()) };
+    let mut mods = vec![];
+    for n in v.get_module_names() { mods.push((n.to_string(), hash_of(&v.get_module_raw(n).map_err(|e| format!("{e:?}"))?.to_vec()))); }
+    Ok(format!("{} | {:?} | {:?}", hash_of(&range_digest(&r)), mods, v.get_references().iter().map(|r| r.name.clone()).collect::<Vec<_>>()))
+}
+
+pub fn check(rep: &Report, stats: &Mutex<Stats>) {
+    let t = crate::thorough(&rep.tier);
+    // reference observation: default layout, both workbook sizes
+    let mut reference: Vec<Option<String>> = vec![None, None];
+    for big in 0..2u32 {
+        run_one(|ch| { let (b, _) = build(ch); reference[big as usize] = guarded(|| observe(&b)).ok().and_then(|r| r.ok()); }, &[big]);
+    }
+    let mut st = Stats::default();
+    let mut local = vec![];
+    crate::engine::crumb::set_job("C13 end-to-end xls+VBA under every layout");
+    let mut case = |ch: &mut Chooser| {
+        let (bytes, desc) = build(ch);
+        rep.eval(1);
+        let big = ch.choices().first().copied().unwrap_or(0) as usize;
+        let got = guarded(|| observe(&bytes));
+        let exp = reference[big].clone();
+        let ok = matches!((&got, &exp), (Ok(Ok(g)), Some(e)) if g == e);
+        if !ok {
+            let kind = match &got { Ok(Ok(_)) => "workbook-differs".to_string(), Ok(Err(e)) => format!("error/{}", e.split('(').next().unwrap_or("")), Err(p) => format!("panic/{}", normalise_site(p.rsplit(" @ ").next().unwrap_or(""))) };
+            rep.fail(&format!("e2e/{kind}"), &format!("{desc}: read {got:?}, the default layout reads {exp:?}"), || Replay { json: json!({"e2e_choices": ch.choices(), "case": desc}), files: vec![("xls".into(), bytes.clone())] });
+        }
+        local.push((hash_of(&bytes), !ch.is_default(), hash_of(&format!("{got:?}"))));
+    };
+    if t { explore_full(&mut case, &mut st, u64::MAX); } else { explore_deviations(&mut case, 2, &mut st); }
+    rep.cases_bulk(&local);
+    rep.extra("end_to_end_xls_vba_files", serde_json::json!(st.executions));
+    stats.lock().unwrap().merge(&st);
+    crate::engine::crumb::clear();
+}
+
+pub fn replay(v: &serde_json::Value) -> i32 {
+    let choices: Vec<u32> = v["e2e_choices"].as_array().map(|a| a.iter().map(|x| x.as_u64().unwrap() as u32).collect()).unwrap_or_default();
+    let mut o = String::new();
+    run_one(|ch| { let (b, d) = build(ch); o = format!("{d}: {:?}", guarded(|| observe(&b))); }, &choices);
+    println!("recorded: {}\nobserved now: {o}", v["what"]);
+    0
+}
